@@ -507,8 +507,9 @@ func (ex *Exec) copyBytes(st *State, s SliceV, toStr bool) SliceV {
 	// string must also copy because the source may be written later.
 	e := make([]Value, n)
 	na := &ArrayV{e: e}
-	if a.pristine && s.off.IsConst() {
-		na.base, na.baseOff, na.pristine = a.base, a.baseOff+int(s.off.c), true
+	if a.fn != nil {
+		off, afn := s.off, a.fn
+		na.fn = func(i *Term) *Term { return afn(tt.Add(off, i)) }
 	}
 	for k := 0; k < n; k++ {
 		e[k] = ex.elemAt(st, s, tt.BV(uint64(k), 64))
